@@ -163,3 +163,6 @@ Owners.vos Owners.vok Owners.required_vos: Owners.v
 OwnersFacts.vo OwnersFacts.glob OwnersFacts.v.beautified OwnersFacts.required_vo: OwnersFacts.v Owners.vo
 OwnersFacts.vio: OwnersFacts.v Owners.vio
 OwnersFacts.vos OwnersFacts.vok OwnersFacts.required_vos: OwnersFacts.v Owners.vos
+OwnersScenarios.vo OwnersScenarios.glob OwnersScenarios.v.beautified OwnersScenarios.required_vo: OwnersScenarios.v Owners.vo OwnersFacts.vo
+OwnersScenarios.vio: OwnersScenarios.v Owners.vio OwnersFacts.vio
+OwnersScenarios.vos OwnersScenarios.vok OwnersScenarios.required_vos: OwnersScenarios.v Owners.vos OwnersFacts.vos
